@@ -41,10 +41,147 @@ func sdbInv(c *segDataBuffer) bool {
 		})
 }
 
+// sdbHas: the buffer holds an item with this sequence number.
+func sdbHas(c *segDataBuffer, seqNr uint32) bool {
+	return exists(0, int(c._nrItems), func(k int) bool { return c.items[k].seqNr == seqNr })
+}
+
+//@ func newSegDataBuffer
+//@   requires size >= 1
+//@   ensures  result != nil && fresh(result) && sdbInv(result) && result._nrItems == 0 && result.size == size
+//@   allocates
+
+//@ func (*segDataBuffer).nrItems
+//@   requires c != nil
+//@   ensures  result == c._nrItems
+
+// add: the new item becomes the last one; what was there before is kept unless it
+// fell out of the window of c.size sequence numbers ending at the new item.
 //@ func (*segDataBuffer).add
 //@   requires c != nil && sdbInv(c)
 //@   ensures  sdbInv(c)
+//@   ensures  c.size == old(c.size) && c.items == old(c.items)
+//@   ensures  stored: result == nil ==> c._nrItems >= 1 && c.items[c._nrItems-1] == item
+//@   ensures  rejected: result != nil ==> c._nrItems == old(c._nrItems) && forall k in [0, int(c._nrItems)) :: c.items[k] == old(c.items[k])
+//@   ensures  accepts: result == nil <==> (old(c._nrItems) == 0 || item.seqNr > old(c.items[c._nrItems-1].seqNr))
+//@   ensures  keepsPrefix: result == nil && old(c._nrItems) < c.size ==> c._nrItems == old(c._nrItems)+1 && forall k in [0, int(old(c._nrItems))) :: c.items[k] == old(c.items[k])
+//@   ensures  keepsWindow: result == nil ==> forall k in [0, int(c._nrItems)-1) :: exists m in [0, int(old(c._nrItems))) :: c.items[k] == old(c.items[m])
 //@   assigns  c._nrItems, c.items[*]
 //@   loop 1 invariant 0 <= i && i <= c.size && nrToDiscard <= i
 //@   loop 1 invariant (i > 0 && c.items[0].seqNr <= item.seqNr - c.size) ==> nrToDiscard >= 1
 //@   loop 1 decreases int(c.size) - int(i)
+
+//@ func (*segDataBuffer).getItem
+//@   requires c != nil && sdbInv(c)
+//@   ensures  found: ret1 ==> ret0.seqNr == seqNr && exists k in [0, int(c._nrItems)) :: c.items[k] == ret0
+//@   ensures  notfound: !ret1 ==> !sdbHas(c, seqNr)
+//@   loop 1 invariant -1 <= i && i < int(c._nrItems)
+//@   loop 1 invariant forall k in [i+1, int(c._nrItems)) :: c.items[k].seqNr != seqNr
+//@   loop 1 decreases i + 1
+
+//@ func (*segDataBuffer).setLatestDur
+//@   requires c != nil && sdbInv(c)
+//@   ensures  sdbInv(c)
+//@   ensures  c._nrItems > 0 ==> c.items[c._nrItems-1].dur == dur && c.items[c._nrItems-1].seqNr == old(c.items[c._nrItems-1].seqNr)
+//@   ensures  forall k in [0, int(c._nrItems)-1) :: c.items[k] == old(c.items[k])
+//@   assigns  c.items[*]
+
+// resize: afterwards the buffer is a well-formed buffer of the new size that still
+// holds the newest min(nrItems, newSize) items.
+//@ func (*segDataBuffer).resize
+//@   requires c != nil && sdbInv(c) && newSize >= 1
+//@   ensures  sdbInv(c)
+//@   ensures  c.size == newSize
+//@   ensures  c._nrItems == min(old(c._nrItems), newSize)
+//@   ensures  keepsNewest: forall k in [0, int(c._nrItems)) :: c.items[k] == old(c.items[k + int(c._nrItems) - min(int(c._nrItems), int(newSize))])
+//@   assigns  c._nrItems, c.items, c.size, c.items[*]
+
+//@ func (*segDataBuffer).dropSeqNr
+//@   requires c != nil && sdbInv(c)
+//@   ensures  sdbInv(c)
+//@   ensures  !sdbHas(c, seqNr)
+//@   ensures  c._nrItems == old(c._nrItems) || c._nrItems + 1 == old(c._nrItems)
+//@   assigns  c._nrItems, c.items[*]
+//@   loop 1 invariant 0 <= i && i <= int(c._nrItems)
+//@   loop 1 invariant forall k in [0, i) :: c.items[k].seqNr != seqNr
+//@   loop 1 decreases int(c._nrItems) - i
+
+//@ func (*segDataBuffer).removeUnshifted
+//@   requires c != nil && sdbInv(c)
+//@   ensures  sdbInv(c)
+//@   ensures  c._nrItems <= old(c._nrItems) && len(result) == int(old(c._nrItems)) - int(c._nrItems)
+//@   ensures  c._nrItems > 0 ==> c.items[0].isShifted
+//@   ensures  forall k in [0, len(result)) :: result[k] == old(c.items[k].seqNr)
+//@   ensures  forall k in [0, int(c._nrItems)) :: c.items[k] == old(c.items[k + len(result)])
+//@   assigns  c._nrItems, c.items[*]
+//@   allocates
+//@   loop 1 invariant 0 <= i && i <= int(c._nrItems) && int(nrToDrop) == i && len(unshifted) == i && cap(unshifted) >= int(c._nrItems)
+//@   loop 1 invariant fresh(unshifted) && unshifted != nil
+//@   loop 1 invariant forall k in [0, i) :: unshifted[k] == c.items[k].seqNr && !c.items[k].isShifted
+//@   loop 1 decreases int(c._nrItems) - i
+
+// ctrInv is the representation invariant of seqCounters (gap form: strictly increasing).
+func ctrInv(s *seqCounters) bool {
+	return len(s.counters) == int(s.windowSize) && s._nrCounters <= s.windowSize && s.windowSize >= 1 &&
+		forall(0, int(s._nrCounters), func(i int) bool {
+			return s.counters[i].count >= 1 && forall(i+1, int(s._nrCounters), func(j int) bool {
+				return int(s.counters[j].seqNr)-int(s.counters[i].seqNr) >= j-i
+			})
+		})
+}
+
+//@ func newSeqCounters
+//@   requires windowSize >= 1
+//@   ensures  result != nil && fresh(result) && ctrInv(result) && result._nrCounters == 0 && result.windowSize == windowSize
+//@   allocates
+
+//@ func (*seqCounters).minFromMax
+//@   requires s != nil
+//@   ensures  maxSeqNr < s.windowSize ==> result == 0
+//@   ensures  maxSeqNr >= s.windowSize ==> result == maxSeqNr - s.windowSize + 1
+
+//@ func (*seqCounters).resize
+//@   requires s != nil && ctrInv(s) && newWindowSize >= 1
+//@   ensures  ctrInv(s)
+//@   ensures  s.windowSize == newWindowSize
+//@   assigns  s.counters, s.windowSize, s._nrCounters, s.counters[*]
+
+//@ func (*seqCounters).add
+//@   requires s != nil && ctrInv(s)
+//@   ensures  ctrInv(s)
+//@   assigns  s._nrCounters, s.counters[*]
+//@   loop 1 invariant 0 <= i && i <= int(s._nrCounters) && int(nrToDrop) <= i
+//@   loop 1 invariant (i > 0 && s.counters[0].seqNr < currMinSeqNr) ==> nrToDrop >= 1
+//@   loop 1 invariant forall k in [0, i) :: (s.counters[k].seqNr < currMinSeqNr) ==> int(nrToDrop) > k
+//@   loop 1 decreases int(s._nrCounters) - i
+//@   loop 2 invariant 0 <= i && i <= int(s._nrCounters)
+//@   loop 2 invariant forall k in [0, i) :: s.counters[k].seqNr != seqNr
+//@   loop 2 decreases int(s._nrCounters) - i
+//@   loop 3 invariant 0 <= i && i < s._nrCounters
+//@   loop 3 decreases int(i)
+
+//@ func (*seqCounters).newFullCounter
+//@   requires s != nil && ctrInv(s)
+//@   ensures  result != 0 ==> result > maxSeqNr && exists k in [0, int(s._nrCounters)) :: s.counters[k].seqNr == result && s.counters[k].count == nrTracks
+//@   loop 1 invariant -1 <= i && i < int(s._nrCounters)
+//@   loop 1 decreases i + 1
+
+// fullRange: every number in [first,last] has a counter with count >= nrTracks.
+//@ func (*seqCounters).fullRange
+//@   requires s != nil && ctrInv(s) && nrTracks >= 1
+//@   ensures  first <= last
+//@   ensures  last != 0 ==> forall n in [int(first), int(last)+1) :: exists k in [0, int(s._nrCounters)) :: int(s.counters[k].seqNr) == n && s.counters[k].count >= nrTracks
+//@   loop 1 invariant -1 <= i && i < int(s._nrCounters) && 0 <= lastIdx && lastIdx < int(s._nrCounters)
+//@   loop 1 invariant last == 0 ==> first == 0
+//@   loop 1 invariant last != 0 ==> i < lastIdx && s.counters[lastIdx].seqNr == last && int(first) == int(last) - (lastIdx - (i+1)) && first >= 1
+//@   loop 1 invariant last != 0 ==> forall k in [i+1, lastIdx+1) :: int(s.counters[k].seqNr) == int(last) - (lastIdx - k) && s.counters[k].count >= nrTracks
+//@   loop 1 decreases i + 1
+
+//@ func (*seqCounters).drop
+//@   requires s != nil && ctrInv(s)
+//@   ensures  ctrInv(s)
+//@   ensures  forall k in [0, int(s._nrCounters)) :: s.counters[k].seqNr != seqNr
+//@   assigns  s._nrCounters, s.counters[*]
+//@   loop 1 invariant 0 <= i && i <= int(s._nrCounters)
+//@   loop 1 invariant forall k in [0, i) :: s.counters[k].seqNr != seqNr
+//@   loop 1 decreases int(s._nrCounters) - i
